@@ -23,6 +23,7 @@ ASSUMPTIONS = [
 ]
 THEOREMS = ["C13_array_index_to_world_is_rev", "C13_world_to_array_index_values_spec", "C13_world_to_array_index_spec",
             "C13_array_shape_after_any_history", "C13_last_array_shape_wins", "C13_pixel_shape_wrong_len_rejected",
+            "C13_array_shape_wrong_len_rejected", "C13_shape_ok_after_any_history",
             "C13_set_pixel_shape_spec", "C13_nonvacuous"]
 HEADER = ("From Coq Require Import ZArith List Bool. Import ListNotations. Open Scope Z_scope.\n"
           "From GW Require Import Base.Py Base.Api.\nFrom WC13 Require Import Gen_api ApiProofs Sem ApiCases.\n")
@@ -71,8 +72,10 @@ def shape_history(rng, w, n):
         which = rng.choice(["pixel_shape", "array_shape"])
         if r < 0.15:
             val = None
-        elif r < 0.75 or which == "array_shape":
+        elif r < 0.75:
             val = tuple(rng.randint(1, 50) for _ in range(n))
+        elif r < 0.82:
+            val = rng.choice([(), []])          # an empty shape is a wrong length too, not a way of clearing the shape
         else:
             val = tuple(rng.randint(1, 50) for _ in range(n + rng.choice([-1, 1]) if n > 1 else n + 1))
         before = (w.pixel_shape, w.array_shape)
@@ -87,8 +90,8 @@ def shape_history(rng, w, n):
             problems.append(f"array_shape {ash} is not pixel_shape {ps} reversed after {which} = {val}")
         if st is not None and (ps, ash) != before:
             problems.append(f"rejected {which} = {val} changed the shapes")
-        if which == "pixel_shape" and val is not None and len(val) != n and st is None:
-            problems.append(f"pixel_shape of wrong length {val} accepted for {n} pixel axes")
+        if val is not None and len(val) != n and st is None:
+            problems.append(f"{which} of wrong length {val!r} accepted for {n} pixel axes (shapes now {ps} / {ash})")
         if st is None and val is not None and which == "array_shape" and tuple(ash) != tuple(val):
             problems.append("array_shape does not read back what was assigned")
         cval = "None" if val is None else f"(Some {gzl(val)})"
